@@ -12,7 +12,7 @@ import ast
 import copy
 import re
 
-from ..src import walk, calls, call_name, loc, unparse, AnchorError, ExtractError, last_attr
+from ..src import walk, calls, call_name, loc, unparse, AnchorError, ExtractError, last_attr, parent
 from ..symx import SymExec, Opaque, State
 from ..peval import Evaluator, Lin, Obj, Unknown
 from ..inpx import Conv, IO, UTIL, find_convs, discriminators, placeholders, make_hook
@@ -901,6 +901,82 @@ def run_thorough(repo, chk):
     chk.extra["exhaustive_over_unit_systems_and_versions"] = True
 
 
+def reader_state_reset(repo, chk):
+    """R-C12-18 (T1, effects + CFG).  InpFile keeps per-file state on the object (section lines, curve points, comments ...) that the section readers fill IN PLACE
+    (`self.X[k] = ..`, `self.X[k].append(..)`, `self.X.append(..)`).  `read()` may be called again on the same object (io.write(..); io.read(..); io.write(..);
+    io.read(..) is the round trip of the statement): every such container must be made fresh in `read` before anything fills it -- rebound (`self.X = ..`),
+    cleared (`self.X.clear()`), or, for a container whose fillers never create keys, given a fresh value under every key by a loop (`for k in T: self.X[k] = []`).
+    Otherwise the second file read through the object is the union of both files."""
+    from ..cfg import CFG
+    cls = repo.cls(IO, "InpFile")
+    meths = {n.name: n for n in cls.body if isinstance(n, ast.FunctionDef)}
+    rd = repo.func(IO, "InpFile.read")
+    chk.fn(rd)
+    MUT = {"append", "extend", "insert", "add", "update", "setdefault", "pop", "remove", "clear", "appendleft"}
+
+    def self_attr(e):
+        return e.attr if isinstance(e, ast.Attribute) and isinstance(e.value, ast.Name) and e.value.id == "self" else None
+
+    def fills(fnode):
+        """attribute -> list of (node, creates_key) for in-place fills of self.<attribute> in a function"""
+        out = {}
+        for n in walk(fnode):
+            if isinstance(n, ast.Subscript) and isinstance(n.ctx, ast.Store):
+                a = self_attr(n.value)
+                if a:
+                    out.setdefault(a, []).append((n, True))
+            if isinstance(n, ast.Call) and isinstance(n.func, ast.Attribute) and n.func.attr in MUT and n.func.attr != "clear":
+                b = n.func.value
+                a = self_attr(b)
+                if a:
+                    out.setdefault(a, []).append((n, n.func.attr in ("setdefault", "update")))
+                elif isinstance(b, ast.Subscript) and self_attr(b.value):
+                    out.setdefault(self_attr(b.value), []).append((n, False))
+        return out
+    readers = {nm: f for nm, f in meths.items() if nm.startswith("_read")}
+    filled = {}
+    for nm, f in list(readers.items()) + [("read", rd)]:
+        for a, sites in fills(f).items():
+            filled.setdefault(a, []).extend((nm, n_, ck) for n_, ck in sites)
+    if len(filled) < 2:
+        raise ExtractError("InpFile: fewer than two containers filled in place by the readers (%s)" % sorted(filled))
+    g = CFG(rd)
+    for a, sites in sorted(filled.items()):
+        creates = any(ck for _m, _n, ck in sites)
+
+        def is_reset(node, d, a=a, creates=creates):
+            if isinstance(node, ast.Assign) and any(self_attr(t) == a for t in node.targets):
+                return True
+            for c in walk(node) if not isinstance(node, (ast.For, ast.While, ast.If)) else []:
+                if isinstance(c, ast.Call) and isinstance(c.func, ast.Attribute) and c.func.attr == "clear" and self_attr(c.func.value) == a:
+                    return True
+            # `self.X[k] = <fresh>` as the body of a loop over a key table: a reset only when no filler creates keys of its own
+            if not creates and isinstance(node, ast.Assign) and len(node.targets) == 1 and isinstance(node.targets[0], ast.Subscript) and self_attr(node.targets[0].value) == a \
+                    and isinstance(node.value, (ast.List, ast.Dict, ast.Set, ast.Call)):
+                par = parent(node)
+                return isinstance(par, ast.For)
+            return False
+        resets = g.nodes_where(is_reset)
+        # where the container is filled, seen from read(): its own filling statements and the calls of the section readers that fill it
+        users = [m for m, _n, _ck in sites]
+        targets = []
+        for m in sorted(set(users)):
+            if m == "read":
+                own = {id(n_) for mm, n_, _ck in sites if mm == "read"}
+                targets += [i for i in g.nodes_where(lambda node, d: any(id(x) in own for x in walk(node))) if i not in resets]
+            else:
+                targets += g.calling("self." + m)
+        targets = sorted(set(targets) - set(resets))
+        if not targets:
+            continue
+        ok, w = g.must_pass(g.entry, targets, resets, drop_back=True)
+        chk.expect(bool(resets) and ok, "R-C12-18", "InpFile.read makes self.%s fresh before anything fills it" % a, loc(rd),
+                   "filled in place by %s; a second read through the same object otherwise adds the new file's entries to the previous file's" % ", ".join(sorted(set(users))[:4]),
+                   expected="self.%s rebound / cleared on every path from the entry of read() to its first filler" % a,
+                   found=("no reset in read()" if not resets else ("path without a reset: " + g.path_text(w)) if w else None))
+    chk.floor("R-C12-18", 2)
+
+
 def run(repo, chk):
     # R-C12-17: the write -> read -> write -> read round trip of the fixture model, interpreted (see sa/props/c12_roundtrip.py); decides on its own
     from .c12_roundtrip import round_trip_rules
@@ -1483,6 +1559,9 @@ def run(repo, chk):
                    "the constructor is run (concrete evaluation) on '8 AM', '6 PM', '12 AM', '12 PM', '8:00 AM', '8:30 PM', '14:00', '6', '6.5'",
                    expected=[(t, w_) for t, w_, g in wrong[:3]], found=[(t, g) for t, w_, g in wrong[:3]])
 
+    # ---------------------------------------------------------------- R-C12-18 a reader object can be used again: what one read accumulates is reset by the next
+    reader_state_reset(repo, chk)
+
     # ---------------------------------------------------------------- R-C12-16 the time steps the simulator settles on (clause of C03 decided with this module's
     # time-option machinery): as EPANET, the hydraulic step is shortened to the pattern step and to the report step, so that no pattern period is skipped
     sso = repo.func("wntr/sim/core.py", "WNTRSimulator._setup_sim_options")
@@ -1496,6 +1575,10 @@ def run(repo, chk):
 
 
 WITNESSES = [
+    dict(name="reader-keeps-the-curves-of-the-previous-file", file=IO, old="        self.curves = OrderedDict()\n        self.top_comments = []\n        self.sections = OrderedDict()\n",
+         new="        self.top_comments = []\n        self.sections = OrderedDict()\n", rule="R-C12-18"),
+    dict(name="reader-state-cleared-in-place-preserving", file=IO, old="        self.curves = OrderedDict()\n        self.top_comments = []\n        self.sections = OrderedDict()\n",
+         new="        self.curves.clear()\n        del self.top_comments[:]\n        self.top_comments = []\n        self.sections = OrderedDict()\n", silent=True),
     # fixture variant B: options and elements the base fixture does not have
     dict(name="round-trip-statistic-not-written", file=IO, old="        f.write(entry.format('STATISTIC', wn.options.time.statistic).encode(sys_default_enc))\n", new="", rule="R-C12-17"),
     dict(name="round-trip-unbalanced-count-dropped", file=IO, old="            f.write('{:20s} {:s} {:d}\\n'.format('UNBALANCED', wn.options.hydraulic.unbalanced, wn.options.hydraulic.unbalanced_value).encode(sys_default_enc))\n",
